@@ -4,7 +4,7 @@
    every instance. *)
 From Coq Require Import List Arith.
 Import ListNotations.
-From TH Require Conc.MsgQueue Conc.TaskPool Conc.SeqWriter.
+From TH Require Conc.MsgQueue Conc.TaskPool Conc.SeqWriter Conc.Shutdown.
 
 Definition mq_MS : nat := 10.
 Definition mq_EPS : nat := 0.
@@ -24,3 +24,6 @@ Definition tp_step (fixed : bool) (s : TaskPool.st nat) (l : TaskPool.label nat)
 Definition sw_init : SeqWriter.st nat := SeqWriter.init nat.
 Definition sw_step (fixed : bool) (s : SeqWriter.st nat) (l : SeqWriter.label nat) : option (SeqWriter.st nat) :=
   SeqWriter.step nat fixed s l.
+
+Definition sd_init : Shutdown.st := Shutdown.init.
+Definition sd_step (s : Shutdown.st) (l : Shutdown.label) : option Shutdown.st := Shutdown.step s l.
